@@ -371,7 +371,7 @@ func (c *Ctx) checkReloadCoverage() {
 	// loaders: functions that iterate stored subscriptions and write Topic.perUser
 	perUser := c.E().topicField("perUser")
 	subT := c.P.NamedType("server/store/types", "Subscription")
-	r.Floor("C08.4-reload-coverage", 3)
+	r.Floor("C08.4-reload-coverage", 2)
 	getSubs := c.E().storeIface("TopicsPersistenceInterface", "GetSubs")
 	getUsers := c.E().storeIface("TopicsPersistenceInterface", "GetUsers")
 	for _, fn := range c.P.ModFuncs {
